@@ -86,11 +86,7 @@ func alphabet(thorough bool) []nameSpec {
 	bad("..", "dotdot", "dotdot")
 	bad(".", "dot", "dot")
 	bad("", "empty", "empty")
-	ds := []int{1, 2, 3, 6}
-	if thorough {
-		ds = []int{1, 2, 3, 4, 5, 6}
-	}
-	for _, d := range ds {
+	for d := 1; d <= 6; d++ {
 		up := strings.Repeat("../", d)
 		bad(up+"x", "traversal-x", fmt.Sprintf("up%d-x", d)) // d = 1 is "../x"
 		bad(up+"tmp/evil", "traversal-tmp-evil", fmt.Sprintf("up%d-tmp-evil", d))
@@ -117,7 +113,7 @@ func alphabet(thorough bool) []nameSpec {
 		bad("foo/..", "trailing-dotdot", "trailing-dotdot")
 		bad("foo/", "trailing-slash", "control-plus-slash")
 		bad("../plugins/foo", "back-into-root", "back-into-root")
-		bad("/", "slash-only", "slash-only")
+		// no name that would be dangerous if it were (wrongly) taken as an absolute path: "/" and "/.." are left out
 		bad("..\x00", "nul", "dotdot-nul")
 		bad("\\", "backslash", "backslash-only")
 		odd("\t", "only-tab")
@@ -134,6 +130,60 @@ func alphabet(thorough bool) []nameSpec {
 	}
 	a = append(a, nameSpec{Tmpl: "foo", Class: "control-foo", Label: "control-foo", Acceptable: true, Control: true})
 	a = append(a, nameSpec{Tmpl: "foo.bar-1_x", Class: "control-dotted", Label: "control-dotted", Acceptable: true, Control: true})
+
+	// the generated part of the grammar: every '/'-joined sequence of 1..k tokens (k = 2 quick, 3 thorough).
+	// Labelled by construction: two or more tokens contain a separator; a single token carries a hand label.
+	// Sequences with a leading empty token (absolute-looking names outside the scratch tree) are left out.
+	type token struct {
+		s, label string
+		single   bool // acceptable when it is the whole name
+		feature  string
+	}
+	toks := []token{{"..", "dd", false, "dotdot"}, {".", "dot", false, "dot"}, {"", "empty", false, "empty"}, {"x", "x", true, ""}, {"foo", "foo", true, ""},
+		{"a\\b", "bs", false, "backslash"}, {"f\x00", "nul", false, "nul"}, {" ", "blank", true, ""}, {"...", "dots3", true, ""}}
+	have := map[string]bool{}
+	for _, n := range a {
+		have[n.Tmpl] = true
+	}
+	k := 2
+	if thorough {
+		k = 3
+	}
+	var gen func(prefix []token)
+	gen = func(prefix []token) {
+		if len(prefix) > 0 {
+			var parts, labels []string
+			feat := map[string]bool{}
+			for _, t := range prefix {
+				parts = append(parts, t.s)
+				labels = append(labels, t.label)
+				if t.feature != "" {
+					feat[t.feature] = true
+				}
+			}
+			name := strings.Join(parts, "/")
+			if !have[name] {
+				have[name] = true
+				class := fmt.Sprintf("grammar%d", len(prefix))
+				for _, f := range []string{"dotdot", "dot", "empty", "backslash", "nul"} {
+					if feat[f] {
+						class += "-" + f
+					}
+				}
+				a = append(a, nameSpec{Tmpl: name, Class: class, Label: "g:" + strings.Join(labels, "/"), Acceptable: len(prefix) == 1 && prefix[0].single})
+			}
+		}
+		if len(prefix) == k {
+			return
+		}
+		for _, t := range toks {
+			if len(prefix) == 0 && t.s == "" {
+				continue
+			}
+			gen(append(append([]token(nil), prefix...), t))
+		}
+	}
+	gen(nil)
 	return a
 }
 
@@ -156,6 +206,7 @@ const (
 	opVerifyJWSUn  = "verify-jws-untrusted"
 	opVerifyCOSEUn = "verify-cose-untrusted"
 	opList         = "list"
+	opProbeNonExec = "install-dir-nonexec" // replay-only probe: the candidate in the source directory lacks the executable bit
 	opAll          = "all"
 )
 
@@ -171,6 +222,8 @@ func family(op string) string {
 	switch {
 	case strings.HasPrefix(op, "install-file"):
 		return "install-file"
+	case op == opProbeNonExec:
+		return "install-dir-nonexec"
 	case strings.HasPrefix(op, "install-dir"):
 		return "install-dir"
 	case strings.HasPrefix(op, "verify"):
@@ -293,6 +346,8 @@ type caseEnv struct {
 	placed  int    // sentinels placed for this case
 	outside int    // sentinels/witnesses placed at a location that some join / normalisation of the name denotes
 	srcExe  string // install source executable ("" when not an install case)
+
+	masterSig string // inode signature of the sentinel master at the time of the first snapshot
 }
 
 func (w *world) newCase(depth int, pre string) *caseEnv {
@@ -626,14 +681,35 @@ func inode(p string) uint64 {
 	return 0
 }
 
-// snapBefore trusts the (verified) master, snapAfter re-hashes it and reports whether it is intact.
+// statSig is everything the kernel records about an inode apart from its access time; the change time
+// cannot be set by a program, so an unchanged signature means unchanged content, mode and link count.
+func statSig(p string) string {
+	fi, err := os.Lstat(p)
+	if err != nil {
+		return "missing"
+	}
+	st, ok := fi.Sys().(*syscall.Stat_t)
+	if !ok {
+		return "unknown"
+	}
+	return fmt.Sprintf("%d/%d/%o/%d/%d.%d/%d.%d", st.Ino, st.Size, st.Mode, st.Nlink, st.Mtim.Sec, st.Mtim.Nsec, st.Ctim.Sec, st.Ctim.Nsec)
+}
+
+// snapBefore trusts the content of the pooled master (verified when the previous case returned it);
+// snapAfter re-hashes it unless its inode signature (incl. change time) is untouched, and reports
+// whether it is intact.
 func (c *caseEnv) snapBefore() (map[string]entry, error) {
 	m, _, err := snapshot(c.dir, filepath.Dir(c.marker), map[uint64]string{inode(c.master): c.w.plugbinSum})
+	c.masterSig = statSig(c.master)
 	return m, err
 }
 
 func (c *caseEnv) snapAfter() (map[string]entry, bool, error) {
-	m, sums, err := snapshot(c.dir, filepath.Dir(c.marker), nil)
+	var seed map[uint64]string
+	if sig := statSig(c.master); sig == c.masterSig && sig != "missing" && sig != "unknown" {
+		seed = map[uint64]string{inode(c.master): c.w.plugbinSum}
+	}
+	m, sums, err := snapshot(c.dir, filepath.Dir(c.marker), seed)
 	intact := true
 	if s, ok := sums[inode(c.master)]; ok && s != c.w.plugbinSum {
 		intact = false
@@ -699,7 +775,7 @@ func (w *world) runOp(c *caseEnv, op, src string) (res opResult) {
 		res.evals = 1
 		res.err = mgr.Uninstall(ctx, c.name)
 		res.firstErr = res.err
-	case opInstFile, opInstFileOW, opInstDir, opInstDirOW:
+	case opInstFile, opInstFileOW, opInstDir, opInstDirOW, opProbeNonExec:
 		res.evals = 1
 		_, _, res.err = mgr.Install(ctx, plugin.CLIInstallOptions{PluginPath: src, Overwrite: op == opInstFileOW || op == opInstDirOW})
 		res.firstErr = res.err
@@ -780,7 +856,7 @@ func (w *world) runCase(ns nameSpec, depth int, pre, op string) string {
 		return op + ":skipped/name-is-not-a-text-string"
 	}
 	var src string
-	if fam == "install-file" || fam == "install-dir" {
+	if fam == "install-file" || fam == "install-dir" || fam == "install-dir-nonexec" {
 		if !legalFileName(c.name) {
 			return op + ":skipped/notation-NAME-is-not-a-file-name"
 		}
@@ -788,6 +864,12 @@ func (w *world) runCase(ns nameSpec, depth int, pre, op string) string {
 	c.populate()
 	if fam == "install-file" || fam == "install-dir" {
 		src = c.installSource(fam == "install-dir")
+	}
+	if fam == "install-dir-nonexec" {
+		src = c.installSource(true)
+		// a private copy (a hard link shares its mode with every other sentinel) without the executable bit
+		must(os.Remove(c.srcExe))
+		must(os.WriteFile(c.srcExe, w.plugbin, 0o644))
 	}
 
 	before, err := c.snapBefore()
